@@ -243,7 +243,7 @@ def run(ctx: Ctx):
 
     # ---- random phase over a pool of readers ----
     rng = ctx.rng
-    nrand = 40_000 if ctx.thorough else 2_500
+    nrand = 40_000 if ctx.tier == "thorough" else (8_000 if ctx.escalated else 2_500)
     for _ in range(nrand):
         dens = rng.choice([0.0, 0.02, 0.1, 0.3])
         L = rng.choice([rng.randrange(0, 12), rng.randrange(0, 60), rng.randrange(0, 301)])
